@@ -106,7 +106,20 @@ func unexportedKey(key string) bool {
 
 // ---- check ------------------------------------------------------------------------------------
 
-func cmdCheck(prop, tier string) int {
+func cmdCheck(prop, tier string) (rc int) {
+	defer func() {
+		// last line of defence: the machinery failing on a tree is "undecided", reported as such,
+		// never a silent non-zero exit without a VIOLATION line
+		if r := recover(); r != nil {
+			os.MkdirAll("/verif/replays", 0o755)
+			path := fmt.Sprintf("/verif/replays/%s-generator_crash.json", prop)
+			js, _ := json.MarshalIndent(map[string]interface{}{"property": prop, "obligation": "generator/crash",
+				"confirmed_on_real_code": false, "note": fmt.Sprintf("the verifier crashed on this tree: %v", r)}, "", " ")
+			os.WriteFile(path, js, 0o644)
+			fmt.Printf("VIOLATION property=%s replay=%s obligation=generator/crash no-failing-input-found\n", prop, path)
+			rc = 1
+		}
+	}()
 	t0 := time.Now()
 	initWork()
 	defer func() {
@@ -272,6 +285,17 @@ func cmdCheck(prop, tier string) int {
 			go func() {
 				defer wg.Done()
 				defer func() { <-sem }()
+				defer func() {
+					// a failed obligation is reported even if its replay cannot be produced
+					if r := recover(); r != nil {
+						os.MkdirAll("/verif/replays", 0o755)
+						path := fmt.Sprintf("/verif/replays/%s-%s.json", prop, sanitize(groups[g][0].Name))
+						js, _ := json.MarshalIndent(map[string]interface{}{"property": prop, "obligation": groups[g][0].Name,
+							"confirmed_on_real_code": false, "note": fmt.Sprintf("replay generation failed: %v", r)}, "", " ")
+						os.WriteFile(path, js, 0o644)
+						results[i] = rres{path, false}
+					}
+				}()
 				p, c := writeReplay(s, prop, groups[g], i < 12)
 				results[i] = rres{p, c}
 			}()
